@@ -1,6 +1,7 @@
 import PlumVerif.Proofs.EventsA
 import PlumVerif.Proofs.EventsC
 import PlumVerif.Proofs.EventsD
+import PlumVerif.Proofs.EventsS
 /-
 C13: remaining helper lemmas — no task is ever left `running`, the snapshot is taken once,
 a finished dispatch has stored and woken, removals are never forgotten, the event counter.
@@ -169,11 +170,13 @@ structure Inv (sc : Nat → Script) (s : St) : Prop where
   c : InvC s
   d : InvD sc s
   r : InvR s
+  s : InvS s
 
-theorem inv_init (sc : Nat → Script) : Inv sc init := ⟨invA_init, invC_init, invD_init sc, invR_init⟩
+theorem inv_init (sc : Nat → Script) : Inv sc init := ⟨invA_init, invC_init, invD_init sc, invR_init, invS_init⟩
 
 theorem inv_step (sc : Nat → Script) (s : St) (h : Inv sc s) (e : Ev) : Inv sc (step sc s e) :=
-  ⟨invA_step sc s h.a e, invC_step sc s h.c e, invD_step sc s h.d h.a e, invR_step sc s h.r e⟩
+  ⟨invA_step sc s h.a e, invC_step sc s h.c e, invD_step sc s h.d h.a e, invR_step sc s h.r e,
+    invS_step sc s h.s h.a e⟩
 
 theorem inv_run (sc : Nat → Script) (evs : List Ev) : ∀ s, Inv sc s → Inv sc (run sc s evs) := by
   induction evs with
